@@ -4,40 +4,119 @@ import Vflow.Gen.MirrorFacts
 /-!
 # C16 — mirrored datagrams reach the third-party collector unchanged
 
-`assembleFrom sport max src dst port payload` is the first iteration, `mirrorSeq … msgs` a whole life, of `mirrorIPFIX` (`sport` = 55117) /
-`mirrorSFlow` (55118) for an IPv4 target, as the code is after the `fix:` commit for F13.
+`assembleFrom sport max src dst port payload` is the first iteration, `mirrorSeq send … msgs` a whole life, of
+`mirrorIPFIX` (`sport` = 55117) / `mirrorSFlow` (55118) for an IPv4 target, `mirrorAll` the dispatcher in front
+of it, as the code is after the `fix:` commits for F13 and F25.
 The theorems quantify over every payload, every maximum, every IPv4 source in 4-octet or IPv4-mapped
-16-octet form, every IPv4 target (either form) and every port.
+16-octet form, every IPv4 target (either form), every port — and every behaviour of the kernel's `sendto`
+(`send : Bytes → Bool`): a packet the path cannot carry is lost, and only that packet.
 
-Bound stated: the IPv4 total-length field has 16 bits, so `28 + length ≤ 65535` is required (beyond it
-`SetLen` wraps around, see `total_length_wraps`); it holds whenever `max ≤ 65507`, the largest UDP payload.
+The 16-bit total-length field: an IPv4 datagram has at most 65535 octets, so a payload with
+`28 + length > 65535` cannot be mirrored by anybody; the code's `SetLen` wraps around on it (`total_length_wraps`)
+and the kernel refuses the packet (`EMSGSIZE`), which is the hypothesis `hsend` of `mirrorSeq_spec` /
+`mirror_spec`.  The single-datagram theorems keep the bound `28 + length ≤ 65535` (it holds whenever
+`max ≤ 65507`, the largest UDP payload over IPv4).
 Checksums: the code leaves the IPv4 header checksum 0 (the kernel fills it in on a raw socket) and the UDP
 checksum 0 (= none, legal over IPv4); the model has them as they are and nothing is claimed about them.
 -/
 namespace Vflow.C16
 open Vflow Vflow.Mirror
 
-/-- **C16 (every datagram of a worker's life)**: a worker started for an IPv4 target sends, for every
-message of any sequence (each with an IPv4 source in either form and a payload of at most `max` octets),
-exactly the RFC 791 / RFC 768 datagram of *that* message — nothing of earlier messages survives in the
-reused header and packet buffers — and never panics -/
-theorem mirrorSeq_spec (sport m : Nat) (dst dst4 : Bytes) (port : Nat) (msgs : List (Bytes × Bytes))
+/-- the datagram C16 asks for: exporter as source, configured target and port, payload unchanged -/
+abbrev want (dst4 : Bytes) (sport port : Nat) (x : Bytes × Bytes) : Bytes :=
+  ipv4udp (v4of x.1) dst4 sport port x.2
+
+/-- **C16 (every datagram of a worker's life, whatever the path refuses)**: a worker started for an IPv4
+target handles EVERY sequence of messages (each with an IPv4 source in either form and a payload of at
+most `max` octets) without a panic, and what leaves the machine is, in order, exactly the RFC 791 / RFC 768
+datagram of every message whose datagram the kernel takes: a refused packet (longer than the path MTU —
+a raw socket does not fragment —, or longer than 65535 octets) costs that one datagram and nothing else;
+nothing of earlier messages, sent or refused, survives in the reused header and packet buffers.
+`send` is arbitrary except that it refuses what no IPv4 datagram can hold. -/
+theorem mirrorSeq_spec (send : Bytes → Bool) (sport m : Nat) (dst dst4 : Bytes) (port : Nat)
+    (msgs : List (Bytes × Bytes))
     (hd : IsV4 dst dst4) (hsp : sport < 65536) (hp : port < 65536)
-    (hv : ∀ x ∈ msgs, IsV4 x.1 (v4of x.1) ∧ x.2.length ≤ m ∧ 28 + x.2.length ≤ 65535) :
-    mirrorSeq sport (m : Int) dst port msgs =
-      .ok (msgs.map (fun x => ipv4udp (v4of x.1) dst4 sport port x.2)) := by
+    (hsend : ∀ b, 65535 < b.length → send b = false)
+    (hv : ∀ x ∈ msgs, IsV4 x.1 (v4of x.1) ∧ x.2.length ≤ m) :
+    mirrorSeq send sport (m : Int) dst port msgs =
+      .ok ((msgs.map (want dst4 sport port)).filter send) := by
   obtain ⟨w, hi, hw⟩ := init_ready sport m dst dst4 port hd hsp hp
   simp only [mirrorSeq, hi, ok_bind]
-  clear hi
-  induction msgs generalizing w with
-  | nil => rfl
-  | cons x rest ih =>
-    obtain ⟨src, payload⟩ := x
-    have hx := hv (src, payload) (by simp)
-    obtain ⟨w', hstep, hw'⟩ := step_spec sport port m w src dst (v4of src) dst4 payload hw hx.1 hd hx.2.1 hx.2.2
-    simp only [Worker.run, hstep, ok_bind, List.map_cons]
-    rw [ih (fun y hy => hv y (by simp [hy])) w' hw']
-    rfl
+  rw [run_spec send sport port m dst dst4 hd msgs w hw hv]
+  congr 1
+  apply filter_map_congr
+  intro x hx
+  have h4 : (v4of x.1).length = 4 := (hv x hx).1.1
+  by_cases hl : 28 + x.2.length ≤ 65535
+  · exact .inl (wire_eq_ipv4udp _ _ _ _ _ hl)
+  · refine .inr ⟨hsend _ ?_, hsend _ ?_⟩
+    · rw [wire_length _ _ _ _ _ h4 hd.1]; omega
+    · rw [ipv4udp_length _ _ _ _ _ h4 hd.1]; omega
+
+/-- the same for ANY `send` at all (nothing assumed about the kernel) when every payload fits an IPv4
+datagram (`28 + length ≤ 65535`, e.g. `max ≤ 65507`) -/
+theorem mirrorSeq_spec_bounded (send : Bytes → Bool) (sport m : Nat) (dst dst4 : Bytes) (port : Nat)
+    (msgs : List (Bytes × Bytes))
+    (hd : IsV4 dst dst4) (hsp : sport < 65536) (hp : port < 65536)
+    (hv : ∀ x ∈ msgs, IsV4 x.1 (v4of x.1) ∧ x.2.length ≤ m ∧ 28 + x.2.length ≤ 65535) :
+    mirrorSeq send sport (m : Int) dst port msgs =
+      .ok ((msgs.map (want dst4 sport port)).filter send) := by
+  obtain ⟨w, hi, hw⟩ := init_ready sport m dst dst4 port hd hsp hp
+  simp only [mirrorSeq, hi, ok_bind]
+  rw [run_spec send sport port m dst dst4 hd msgs w hw (fun x hx => ⟨(hv x hx).1, (hv x hx).2.1⟩)]
+  congr 1
+  apply filter_map_congr
+  intro x hx
+  exact .inl (wire_eq_ipv4udp _ _ _ _ _ (hv x hx).2.2)
+
+/-- the statement as it was before F25 (every send succeeds): every message is sent, as its own datagram -/
+theorem mirrorSeq_all_sent (sport m : Nat) (dst dst4 : Bytes) (port : Nat) (msgs : List (Bytes × Bytes))
+    (hd : IsV4 dst dst4) (hsp : sport < 65536) (hp : port < 65536)
+    (hv : ∀ x ∈ msgs, IsV4 x.1 (v4of x.1) ∧ x.2.length ≤ m ∧ 28 + x.2.length ≤ 65535) :
+    mirrorSeq (fun _ => true) sport (m : Int) dst port msgs =
+      .ok (msgs.map (fun x => ipv4udp (v4of x.1) dst4 sport port x.2)) := by
+  rw [mirrorSeq_spec_bounded (fun _ => true) sport m dst dst4 port msgs hd hsp hp hv]
+  simp
+
+/-- the dispatcher's split for an IPv4 target with at least one worker: exactly the datagrams of IPv4
+exporters (either address form) reach the workers; the others are dropped, none is queued -/
+theorem toCh4_v4_target (workers : Nat) (dst dst4 : Bytes) (hd : IsV4 dst dst4) (hw : 0 < workers)
+    (msgs : List (Bytes × Bytes)) :
+    toCh4 (has4Of workers dst) (has6Of workers dst) msgs = msgs.filter (fun x => (to4 x.1).isSome) ∧
+    ∀ x ∈ msgs, route (has4Of workers dst) (has6Of workers dst) x.1 ≠ .ch6 := by
+  have h4 : has4Of workers dst = true := by simp [has4Of, hw, to4_isV4 hd]
+  have h6 : has6Of workers dst = false := by simp [has6Of, to4_isV4 hd]
+  rw [h4, h6]
+  refine ⟨?_, ?_⟩
+  · unfold toCh4
+    apply List.filter_congr
+    intro x _
+    unfold route
+    cases (to4 x.1).isSome <;> simp
+  · intro x _
+    unfold route
+    cases (to4 x.1).isSome <;> simp
+
+/-- **C16 (dispatcher and worker, every stream)**: for EVERY stream of datagrams — exporters of any
+address family, payloads up to `max` — towards an IPv4 target, what leaves the machine is, in order, the
+RFC 791 / RFC 768 datagram of every datagram that came from an IPv4 exporter and that the kernel takes.
+Datagrams of IPv6 exporters (which an IPv4 packet cannot name as its source) are dropped by the
+dispatcher; they are never queued for a worker that does not exist (`toCh4_v4_target`), so no number of
+them stops the others from being mirrored. -/
+theorem mirror_spec (send : Bytes → Bool) (sport m workers : Nat) (dst dst4 : Bytes) (port : Nat)
+    (msgs : List (Bytes × Bytes))
+    (hd : IsV4 dst dst4) (hsp : sport < 65536) (hp : port < 65536) (hw : 0 < workers)
+    (hsend : ∀ b, 65535 < b.length → send b = false)
+    (hv : ∀ x ∈ msgs, x.2.length ≤ m) :
+    mirrorAll send sport (m : Int) dst port workers msgs =
+      .ok (((msgs.filter (fun x => (to4 x.1).isSome)).map (want dst4 sport port)).filter send) := by
+  have hw0 : workers ≠ 0 := by omega
+  simp only [mirrorAll, hw0, ↓reduceIte]
+  rw [(toCh4_v4_target workers dst dst4 hd hw msgs).1]
+  apply mirrorSeq_spec send sport m dst dst4 port _ hd hsp hp hsend
+  intro x hx
+  rw [List.mem_filter] at hx
+  exact ⟨isV4_of_to4 hx.2, hv x hx.1⟩
 
 /-- **C16 (layout)**: the octets handed to `Send` are exactly the RFC 791 / RFC 768 datagram with the
 exporter as source, the configured target and port, total length `28 + n`, UDP length `8 + n` and the
@@ -49,8 +128,8 @@ theorem assembleFrom_eq (sport : Nat) (max : Int) (src dst src4 dst4 : Bytes) (p
   have hmax0 : 0 ≤ max := by omega
   obtain ⟨m, rfl⟩ := Int.eq_ofNat_of_zero_le hmax0
   obtain ⟨w, hi, hw⟩ := init_ready sport m dst dst4 port hd hsp hp
-  obtain ⟨w', hstep, _⟩ := step_spec sport port m w src dst src4 dst4 payload hw hs hd (by omega) hlen
-  simp [assembleFrom, hi, hstep]
+  obtain ⟨w', hstep, _⟩ := step_spec sport port m w src dst src4 dst4 payload hw hs hd (by omega)
+  simp [assembleFrom, hi, hstep, wire_eq_ipv4udp _ _ _ _ _ hlen]
 
 /-- the receiver's view of a well-formed datagram -/
 theorem parse4_ipv4udp (src4 dst4 : Bytes) (sport dport : Nat) (payload : Bytes)
@@ -108,16 +187,101 @@ example : IsV4 [192, 168, 1, 1] [192, 168, 1, 1] ∧ IsV4 (mapped [127, 0, 0, 1]
       some ⟨[192, 168, 1, 1], [127, 0, 0, 1], 55117, 4172, 31, 11, [1, 2, 3]⟩ := by
   refine ⟨⟨rfl, .inl rfl⟩, ⟨rfl, .inr rfl⟩, by decide⟩
 
-/-- why the bound `28 + length ≤ 65535` is stated: `SetLen` adds in 16 bits, a payload of 65508 octets
-would get total length 0 -/
+/-- why the bound `28 + length ≤ 65535` is stated for a single datagram (and why `mirrorSeq_spec` asks
+the kernel to refuse longer packets): `SetLen` adds in 16 bits, a payload of 65508 octets would get total
+length 0 -/
 theorem total_length_wraps :
     setLen4 (List.replicate 20 0) (65508 + 8) = .ok (List.replicate 20 0) := by decide
 
 /-- non-vacuity of `mirrorSeq_spec`: a long datagram from a 16-octet source followed by a short one from
 a 4-octet source through the same worker; the second packet carries nothing of the first -/
-example : mirrorSeq 55118 4 (mapped [127, 0, 0, 9]) 9 [(mapped [10, 0, 0, 1], [1, 2, 3, 4]), ([10, 0, 0, 2], [5])] =
+example : mirrorSeq (linkSend 1500) 55118 4 (mapped [127, 0, 0, 9]) 9 [(mapped [10, 0, 0, 1], [1, 2, 3, 4]), ([10, 0, 0, 2], [5])] =
     .ok [ipv4udp [10, 0, 0, 1] [127, 0, 0, 9] 55118 9 [1, 2, 3, 4], ipv4udp [10, 0, 0, 2] [127, 0, 0, 9] 55118 9 [5]] := by
   decide
+
+/-- `linkSend` satisfies the hypothesis `hsend` for every MTU -/
+theorem linkSend_refuses_long (mtu : Nat) : ∀ b : Bytes, 65535 < b.length → linkSend mtu b = false := by
+  intro b h; simp [linkSend]; omega
+
+/-- non-vacuity of the refused branch: path MTU 30; the 4-octet payload (32 octets on the wire) is refused,
+the 1-octet payloads before and after it (other exporters) go out through the same worker -/
+example : mirrorSeq (linkSend 30) 55117 4 (mapped [127, 0, 0, 9]) 9
+      [([10, 0, 0, 1], [7]), (mapped [10, 0, 0, 2], [1, 2, 3, 4]), ([10, 0, 0, 3], [8])] =
+    .ok [ipv4udp [10, 0, 0, 1] [127, 0, 0, 9] 55117 9 [7], ipv4udp [10, 0, 0, 3] [127, 0, 0, 9] 55117 9 [8]] := by
+  decide
+
+/-- non-vacuity of `mirror_spec`: an IPv6 exporter (2001:db8::1) between two IPv4 ones, five workers -/
+example : mirrorAll (linkSend 1500) 55117 4 (mapped [127, 0, 0, 9]) 9 5
+      [([10, 0, 0, 1], [7]), ([0x20, 0x01, 0x0d, 0xb8, 0, 0, 0, 0, 0, 0, 0, 0, 0, 0, 0, 1], [9, 9]), (mapped [10, 0, 0, 3], [8])] =
+    .ok [ipv4udp [10, 0, 0, 1] [127, 0, 0, 9] 55117 9 [7], ipv4udp [10, 0, 0, 3] [127, 0, 0, 9] 55117 9 [8]] := by
+  decide
+
+/-! ## F25: the code before its `fix:` commit -/
+
+/-- the worker loop before the fix: `if err = conn.Send(…); err != nil { return err }` — the first refused
+packet ends the goroutine; what was sent until then is all that is ever sent -/
+def runUnrepaired (send : Bytes → Bool) (w : Worker) (max : Int) (dst : Bytes) : List (Bytes × Bytes) → Res (List Bytes)
+  | [] => .ok []
+  | (src, payload) :: rest => do
+    let (w', out) ← w.step max dst src payload
+    if send out then
+      let outs ← runUnrepaired send w' max dst rest
+      .ok (out :: outs)
+    else .ok []
+
+def mirrorSeqUnrepaired (send : Bytes → Bool) (sport : Nat) (max : Int) (dst : Bytes) (port : Nat)
+    (msgs : List (Bytes × Bytes)) : Res (List Bytes) := do
+  let w ← Worker.init sport max dst port
+  runUnrepaired send w max dst msgs
+
+/-- F25 (a): path MTU 1500, a 1480-octet datagram (1508 on the wire) followed by a 100-octet one from
+another exporter: before the fix nothing is mirrored (the worker is gone), after it the second datagram is
+(corpus/C16/mirror--F25-send-error.txt, replayed on the code) -/
+theorem f25_worker_counterexample :
+    mirrorSeqUnrepaired (linkSend 1500) 55117 1500 (mapped [127, 0, 0, 1]) 4172
+      [(mapped [10, 0, 0, 1], List.replicate 1480 1), (mapped [10, 0, 0, 2], List.replicate 100 2)] = .ok [] ∧
+    mirrorSeq (linkSend 1500) 55117 1500 (mapped [127, 0, 0, 1]) 4172
+      [(mapped [10, 0, 0, 1], List.replicate 1480 1), (mapped [10, 0, 0, 2], List.replicate 100 2)] =
+      .ok [ipv4udp [10, 0, 0, 2] [127, 0, 0, 1] 55117 4172 (List.replicate 100 2)] := by
+  decide +kernel
+
+/-- the dispatcher before the fix: every datagram is queued for the workers of its own family; a queue
+nobody reads holds `cap` datagrams (1000 in the code), the next one blocks the dispatcher for good.
+Result: what reaches `ch4` (IPv4 target: only `ch4` has readers); `queued` = datagrams sitting in `ch6` -/
+def toCh4Unrepaired (cap : Nat) (queued : Nat) : List (Bytes × Bytes) → List (Bytes × Bytes)
+  | [] => []
+  | x :: rest =>
+    if (to4 x.1).isSome then x :: toCh4Unrepaired cap queued rest
+    else if queued < cap then toCh4Unrepaired cap (queued + 1) rest
+    else []
+
+/-- F25 (b): before the fix, `cap + 1` datagrams of IPv6 exporters (from the start: 1001) end the mirroring of
+EVERY later datagram, whatever follows; after the fix all later IPv4 datagrams still reach the workers -/
+theorem f25_dispatcher_counterexample (cap q : Nat) (v6 : List (Bytes × Bytes)) (rest : List (Bytes × Bytes))
+    (h6 : ∀ x ∈ v6, (to4 x.1).isSome = false) (hn : cap + 1 ≤ q + v6.length) (hq : q ≤ cap)
+    (workers : Nat) (dst dst4 : Bytes) (hd : IsV4 dst dst4) (hw : 0 < workers) :
+    toCh4Unrepaired cap q (v6 ++ rest) = [] ∧
+    toCh4 (has4Of workers dst) (has6Of workers dst) (v6 ++ rest) = rest.filter (fun x => (to4 x.1).isSome) := by
+  refine ⟨?_, ?_⟩
+  · induction v6 generalizing q with
+    | nil => simp at hn; omega
+    | cons a t ih =>
+      have ha := h6 a (by simp)
+      simp only [List.cons_append, toCh4Unrepaired, ha, Bool.false_eq_true, ↓reduceIte]
+      by_cases hlt : q < cap
+      · simp only [hlt, ↓reduceIte]
+        exact ih (q + 1) (fun y hy => h6 y (by simp [hy])) (by simp at hn; omega) (by omega)
+      · simp only [hlt, ↓reduceIte]
+  · rw [(toCh4_v4_target workers dst dst4 hd hw _).1, List.filter_append]
+    have : v6.filter (fun x => (to4 x.1).isSome) = [] := by
+      rw [List.filter_eq_nil_iff]
+      intro x hx; simp [h6 x hx]
+    rw [this, List.nil_append]
+
+/-- non-vacuity of `f25_dispatcher_counterexample` with the code's queue length: 1001 datagrams from 2001:db8::1 -/
+example : (List.replicate 1001 (([0x20, 0x01, 0x0d, 0xb8, 0, 0, 0, 0, 0, 0, 0, 0, 0, 0, 0, 1], [0]) : Bytes × Bytes)).length = 1000 + 1 ∧
+    (to4 [0x20, 0x01, 0x0d, 0xb8, 0, 0, 0, 0, 0, 0, 0, 0, 0, 0, 0, 1]).isSome = false :=
+  ⟨List.length_replicate .., by decide⟩
 
 /-! ## F13: the code before the `fix:` commit -/
 
@@ -147,7 +311,7 @@ def isPanic {α : Type} : Res α → Bool
   | _ => false
 
 /-- F13 (a): before the fix a payload of `max − 27` octets (37 with `max` = 64) panics in
-`packet[0:ipHLen+8+pLen]`; the repaired model sends it (corpus/C16/mirror-f13.txt, replayed on the code) -/
+`packet[0:ipHLen+8+pLen]`; the repaired model sends it (corpus/C16/mirror--f13.txt, replayed on the code) -/
 theorem f13_buffer_counterexample :
     isPanic (assembleUnrepaired 55117 64 (mapped [192, 168, 1, 1]) (mapped [127, 0, 0, 1]) 4172 (List.replicate 37 7)) = true ∧
     isPanic (assembleFrom 55117 64 (mapped [192, 168, 1, 1]) (mapped [127, 0, 0, 1]) 4172 (List.replicate 37 7)) = false := by
@@ -164,7 +328,9 @@ theorem f13_source_counterexample :
 open Vflow.Gen.MirrorFacts in
 /-- what the model transcribes of a mirror worker, written with the model's own constants: buffer of
 `bufExtra + max` octets, `ipHLen = 20`, `SetLen(pLen + 8)`, `udp.SetLen(pLen)`, the three copies at
-`[0:20]`, `[20:28]`, `[28:]`, `Send(packet[0 : 28 + pLen])`, `Put(msg.body[:max])`, and the statement order -/
+`[0:20]`, `[20:28]`, `[28:]`, `Send(packet[0 : 28 + pLen])`, `Put(msg.body[:max])`, the statement order, what
+follows a failed `Send` (the error is logged, nothing else: `Worker.run` goes on with the next message) and
+the absence of any statement that leaves the loop (`return`, `break`, `goto`, `panic`, `Fatal`, … at any depth) -/
 def expectedWorker (sport : Nat) : Gen.MirrorFacts.Worker :=
   { bufSize := .lin bufExtra 0 1
     srcPort := .lin sport 0 0
@@ -181,13 +347,49 @@ def expectedWorker (sport : Nat) : Gen.MirrorFacts.Worker :=
     putLo := .lin 0 0 0
     putHi := .lin 0 0 1
     loop := ["recv", "pLen", "SetAddrs(ipHdr,msg.raddr.IP,dst)", "SetLen", "udp.SetLen", "if !ipv4",
-             "copy", "copy", "copy", "Put", "Send"] }
+             "copy", "copy", "copy", "Put", "Send"]
+    sendFail := ["logger.Println(err)"]
+    exits := [] }
 
 /-- `mirrorIPFIX` has the transcribed buffer size, offsets, bounds and statement order -/
 theorem gen_mirrorIPFIX : Gen.MirrorFacts.mirrorIPFIX = expectedWorker ipfixSrcPort := by decide
 
 /-- `mirrorSFlow` likewise -/
 theorem gen_mirrorSFlow : Gen.MirrorFacts.mirrorSFlow = expectedWorker sflowSrcPort := by decide
+
+open Vflow.Gen.MirrorFacts in
+/-- what the model transcribes of a dispatcher (`route`, `has4Of`, `has6Of`, `toCh4`): `workers` workers are
+started, all on the channel of the target's family, which sets `has4` / `has6`; the endless loop takes a datagram
+and queues it on `ch4` (IPv4 exporter and a worker reads `ch4`), on `ch6` (other exporter and a worker reads
+`ch6`), or puts its buffer back (`msg.body[:max]`, as the worker does) — it never queues for a channel nobody
+reads; nothing leaves the loop.  `chanT` / `flag` / `worker` / `pool` / `optPrefix` are the protocol's names. -/
+def expectedDispatcher (chanT flag worker pool optPrefix name : String) : Gen.MirrorFacts.Dispatcher :=
+  { decls := ["ch4 = make(chan " ++ chanT ++ ", 1000)", "ch6 = make(chan " ++ chanT ++ ", 1000)", "msg " ++ chanT, "has4, has6 bool"]
+    guard := ["if opts." ++ optPrefix ++ "MirrorAddr == \"\" { return }"]
+    spawnHead := ["for w := 0; w < opts." ++ optPrefix ++ "MirrorWorkers; w++"]
+    spawn := ["dst := net.ParseIP(opts." ++ optPrefix ++ "MirrorAddr)", "if dst.To4() != nil",
+              "then: go " ++ worker ++ "(dst, opts." ++ optPrefix ++ "MirrorPort, ch4); has4 = true",
+              "else: go " ++ worker ++ "(dst, opts." ++ optPrefix ++ "MirrorPort, ch6); has6 = true"]
+    between := [flag ++ " = true",
+                "logger.Printf(\"" ++ name ++ " mirror service is running (workers#: %d) ...\", opts." ++ optPrefix ++ "MirrorWorkers)"]
+    loop := ["msg = <-ch", "switch v4 := msg.raddr.IP.To4() != nil", "case v4 && has4: ch4 <- msg",
+             "case !v4 && has6: ch6 <- msg", "default: " ++ pool ++ ".Put(msg.body[:opts." ++ optPrefix ++ "UDPSize])"]
+    exits := [] }
+
+/-- `mirrorIPFIXDispatcher` is the transcribed dispatcher -/
+theorem gen_ipfixDispatcher : Gen.MirrorFacts.ipfixDispatcher =
+    expectedDispatcher "IPFIXUDPMsg" "ipfixMirrorEnabled" "mirrorIPFIX" "ipfixBuffer" "IPFIX" "ipfix" := by decide
+
+/-- `mirrorSFlowDispatcher` likewise -/
+theorem gen_sflowDispatcher : Gen.MirrorFacts.sflowDispatcher =
+    expectedDispatcher "SFUDPMsg" "sFlowMirrorEnabled" "mirrorSFlow" "sFlowBuffer" "SFlow" "sflow" := by decide
+
+/-- the model's `route` is the dispatch `switch`, case by case -/
+theorem route_cases (has4 has6 : Bool) (src : Bytes) :
+    (route has4 has6 src = .ch4 ↔ ((to4 src).isSome = true ∧ has4 = true)) ∧
+    (route has4 has6 src = .ch6 ↔ ((to4 src).isSome = false ∧ has6 = true)) := by
+  unfold route
+  cases (to4 src).isSome <;> cases has4 <;> cases has6 <;> simp
 
 /-- the constants of package mirror -/
 theorem gen_consts : Gen.MirrorFacts.constIPv4HLen = ipv4HLen ∧ Gen.MirrorFacts.constIPv6HLen = ipv6HLen ∧
